@@ -255,9 +255,9 @@ func genRoute() (string, error) {
 		}
 		c := &CPS{Names: map[string]string{ps[0]: "ctx", ps[1]: "headers", r + "." + k.field: k.leanField, "types.VarPath": "varPath"}}
 		c.Calls = map[string]func([]string) string{
-			r + ".matchRoute":                func(a []string) string { return "(httpMatches rx ctx headers configHeaders)" },
-			"strings.EqualFold":              func(a []string) string { return "(equalFold " + a[0] + " " + a[1] + ")" },
-			"strings.HasPrefix":              func(a []string) string { return "(hasPrefix " + a[0] + " " + a[1] + ")" },
+			r + ".matchRoute":               func(a []string) string { return "(httpMatches rx ctx headers configHeaders)" },
+			"strings.EqualFold":             func(a []string) string { return "(equalFold " + a[0] + " " + a[1] + ")" },
+			"strings.HasPrefix":             func(a []string) string { return "(hasPrefix " + a[0] + " " + a[1] + ")" },
 			r + ".regexPattern.MatchString": func(a []string) string { return "(rx regexPattern " + a[0] + ")" },
 		}
 		c.Calls2 = map[string]call2{"variable.GetString": {func(a []string) string { return "(ctx " + a[1] + ")" }, "err"}}
@@ -359,9 +359,10 @@ func genRoute() (string, error) {
 		}
 		r := recvName(fd)
 		c := &CPS{
-			Names: map[string]string{r + ".routes": "routes_"},
-			LenFn: map[string]string{r + ".routes": "listLen"},
-			Types: map[string]string{"routes": "List ρ"},
+			Names:   map[string]string{r + ".routes": "routes_"},
+			LenFn:   map[string]string{r + ".routes": "listLen"},
+			Types:   map[string]string{"routes": "List ρ"},
+			GoTypes: map[string]string{"api.Route": "Option ρ", "[]api.Route": "List ρ", "bool": "Bool", "int": "Int"},
 		}
 		c.Calls = map[string]func([]string) string{
 			"append": func(a []string) string { return "(" + a[0] + " ++ [" + a[1] + "])" },
@@ -414,7 +415,7 @@ func genRoute() (string, error) {
 			Types: map[string]string{"index": "Int"},
 		}
 		c.Calls = map[string]func([]string) string{
-			"strings.ToLower":                func(a []string) string { return "(lower " + a[0] + ")" },
+			"strings.ToLower":               func(a []string) string { return "(lower " + a[0] + ")" },
 			r + ".findHighestPriorityIndex": func(a []string) string { return "(findHighestPriorityIndex ri " + a[0] + " " + a[1] + ")" },
 		}
 		c.Calls2 = map[string]call2{
